@@ -136,6 +136,7 @@ PROPS["C07"] = dict(
     technique=E2_TECH,
     e1=[dict(tu="c07_outer_misc.cpp"), dict(tu="c07b_bcast.cpp"), dict(tu="c07c_where.cpp"), dict(tu="c07b_bcast_rt.cpp"), dict(tu="c07c_where_rt.cpp")],
     e2=[dict(rule="R-UFUNC")],
+    e3=[dict(group="C07")],
     rule="E2: one instance per op call operator (R-UFOP), per view-level ufunc entry point (R-UFWD), per ufunc-view application site (R-UFAPPLY); distinct by qualified function; non-trivial = the function has a body with a return",
     explanation="Name -> scalar operation and operand order are structural facts of the op types and forwarding functions; they are compared with an oracle table and with the function's own parameter list.",
     not_decided="which operand element feeds index i under broadcasting for RUN-TIME shapes (decided for the listed constant shapes only), dtype promotion, values of math functions, multi-statement activations and clip (listed in the table as not covered)",
